@@ -202,6 +202,8 @@ def impl_part(ctx):
         {"producers": [[[300, False], [300, True]]], "maxops": 250, "maxbytes": 1000, "window": 0.0, "fail_at": 1},
         {"producers": [[[300, True]], [[300, True]]], "maxops": 2, "maxbytes": 1000, "window": 0.0, "fail_at": 1},
         {"producers": [[[300, False], [1150, True]]], "maxops": 250, "maxbytes": 1000, "window": 1.0, "fail_at": None},
+        # non-ASCII payloads (escaped on the wire): three updates that fit only two at a time
+        {"producers": [[[450, False], [450, False], [450, True]]], "maxops": 250, "maxbytes": 1000, "window": 1.0, "fail_at": None, "unicode": True},
         # the call succeeds, its answer is paginated, the page fetch fails (with another update queued / in the overflow queue)
         {"producers": [[[300, True]], [[300, True]]], "maxops": 1, "maxbytes": 1000, "window": 0.0, "fail_at": None, "page_fail_at": 1},
         {"producers": [[[600, False], [600, True]]], "maxops": 250, "maxbytes": 1000, "window": 1.0, "fail_at": None, "page_fail_at": 1},
